@@ -1,1 +1,28 @@
-fn main() { println!("zipconf"); }
+//! zipconf: conformance harness binding the TLA+ specification in /verif/spec to zip-rs/zip.
+mod lexer;
+mod sink;
+mod util;
+mod wexec;
+
+fn main() {
+    let args: Vec<String> = std::env::args().collect();
+    if args.len() < 2 {
+        eprintln!("usage: zipconf <cmd> ...");
+        std::process::exit(2);
+    }
+    let rest = &args[2..];
+    let code = match args[1].as_str() {
+        "wexec" => wexec::main_wexec(rest),
+        "lex" => {
+            let b = std::fs::read(&rest[0]).expect("read");
+            let o = lexer::LexOpts { allow_trailing: true, ..Default::default() };
+            println!("{}", lexer::lex(&lexer::Mem(&b[..]), &o));
+            0
+        }
+        other => {
+            eprintln!("unknown command {}", other);
+            2
+        }
+    };
+    std::process::exit(code);
+}
